@@ -242,7 +242,7 @@ inductive Routed where
   | found (h : Handler) (vars : List (String × String))
   | methodNotAllowed
   | notFound
-  deriving Repr
+  deriving Repr, DecidableEq
 
 /-- `Router.Match`: first route whose path *and* method match; `ErrMethodMismatch` is remembered. -/
 def routeGo (m : String) (segs : List String) : List Route → Bool → Routed
